@@ -303,6 +303,12 @@ def finish(ctx, base, cases, outs):
             # confirm on a fresh folder (a torn read is a race: report how often it shows)
             again = sum(1 for r in range(3) if (lambda f: bool(f[1] + (verdict(case, f[0], cand) if f[0] else [])))(
                 run_case(case, os.path.join(base, f"conc{idx}-again{r}"))))
+            if again == 0 and all("no report (died or hung)" in q for q in problems):
+                # a writer process that never reported, not reproduced on three fresh folders: the forked writer was starved or lost on a
+                # loaded machine (seen once per ~10 thorough runs under load 50+, never on an idle one).  Nothing was observed about
+                # pipefunc, so nothing is claimed: counted as a skipped case, not a violation.
+                ctx.skip("conc:writer-no-report-not-reproduced")
+                continue
             ctx.violation(case, f"concurrent writers on FileArray ({case['mode']}): {problems[0]}", impl={"problems": problems[:5],
                           "final": {str(k): v for k, v in final.items()}, "reproduced_in_3_reruns": again},
                           model={"candidates": cand}, key=f"conc:{case['mode']}:{problems[0].split(':')[0]}")
